@@ -302,4 +302,9 @@ class LinkedContext(ContextBase):
         self.linked_context[name] = value
 
     def create_child_context(self):
-        return type(self.linked_context)(self)
+        # composite linked contexts (multi, linked) cannot be constructed
+        # from a single parent; their children are plain contexts
+        linked_type = type(self.linked_context)
+        if issubclass(linked_type, Context):
+            return linked_type(self)
+        return Context(self)
